@@ -213,6 +213,7 @@ def check_create_handler(run, db):
 
 
 def run(run):
+    run.rule('W-joint', 'joint memory cannot leave its object through containers, copies or moves (compile-time)', floor=1)
     run.rule('R-JOINT.handler', 'a failed construction releases the block with the terms it was allocated with', floor=2)
     run.rule('R-TERM.chain', 'allocation terms travel unchanged to the release', floor=8)
     run.rule('R-JOINT.bound', 'joint stack bounded by end_; overflow becomes out_of_fixed_memory', floor=6)
@@ -220,8 +221,13 @@ def run(run):
     run.rule('R-JOINT.reset', 'reset destroys, releases with the allocation terms, nulls', floor=2)
     run.explanation = ('The release size is not stored anywhere: it is re-derived from the joint stack. The chain of terms from the '
                        'allocation to the release is checked link by link. Disjointness/alignment of the pieces is C01/C02 on the underlying fixed_memory_stack.')
-    for cfg in common.configs(run):
-        db = build.load_db(cfg, log=run.log)
+    from engine import witness
+    cfgs = common.configs(run)
+    witness.run_witness(run, 'W-joint', 'c11_joint.cpp', cfgs[:1] if run.tier == 'quick' else cfgs, compilers=('clang++',) if run.tier == 'quick' else ('clang++', 'g++'))
+    for cfg in cfgs:
+        db = common.load_or_skip(run, cfg, ('W-joint',))
+        if db is None:
+            return
         if check_chain(run, db) < 8:
             run.broke('joint chain functions not found [%s]' % cfg)
         if check_lifo(run, db) < 4:
